@@ -50,6 +50,7 @@ fn offer_dup(ctx: &mut Ctx, ty: Ty, m: &[(Item, Item)], mixed: bool) {
         }
         (Verdict::Reject(r), Err(k)) => {
             ctx.count(&format!("toplevel-errkind:{}", k.name()));
+            ctx.sample(|| J::obj(vec![("type", J::Str(ty.name())), ("map_with_duplicate_label", J::Str(hex(&bytes))), ("model_rule", J::s(r.rule)), ("crate_error", J::Str(k.name())), ("also_offered_in", J::s("16 nested carriers (headers) / key sets"))]));
             if r.class == Class::Dup && *k != EK::Dup {
                 ctx.violation(
                     &format!("C12/decode/wrong-error/{}/{}", ty.name(), k.name()),
